@@ -326,9 +326,12 @@ def build_stock_rnn(case, act, ract, cell):
 # labels
 
 
+PLAIN_ACTS = ("tanh", "relu", "sigmoid", "softmax", "linear")
+
+
 def distinct_quantizers(case):
   qs = [v for v in case["q"].values() if v is not None]
-  if case.get("act") is not None:
+  if case.get("act") is not None and case["act"] not in PLAIN_ACTS:
     qs.append(case["act"])
   return len(set(qs))
 
@@ -374,7 +377,8 @@ def labels(case):
   nq = sum(1 for v in case["q"].values() if v is not None)
   if nq == 0:
     labs.append("noquant_weights")
-    if case.get("act") is None:
+    if (case.get("act") is None or case["act"] in PLAIN_ACTS) and (
+        case.get("ract") is None or case["ract"] in PLAIN_ACTS):
       labs.append("noquant")
   if distinct_quantizers(case) >= 2:
     labs.append("two_distinct_q")
